@@ -4,13 +4,19 @@
 Applies a seeded change to /repo (git apply), runs the registered checks, prints
 per-property exit codes and the reported rules, and restores /repo
 (git checkout -- .) even on failure.  Maintenance tool: it is not a check."""
+import atexit
 import json
+import shutil
 import os
 import subprocess
 import sys
 
 VERIF = os.path.dirname(os.path.dirname(os.path.abspath(__file__)))
 REPO = '/repo'
+import tempfile
+_SCRATCH = tempfile.mkdtemp(prefix='seedout_', dir='/tmp')
+atexit.register(shutil.rmtree, _SCRATCH, True)
+SCRATCH_ENV = dict(os.environ, VERIF_EVIDENCE_DIR=_SCRATCH, VERIF_REPLAY_DIR=_SCRATCH)
 
 
 def main():
@@ -36,7 +42,7 @@ def main():
   out = {}
   try:
     for pid in ids:
-      p = subprocess.run([os.path.join(VERIF, 'check'), pid, '--tier', tier], cwd=VERIF, capture_output=True, text=True)
+      p = subprocess.run([os.path.join(VERIF, 'check'), pid, '--tier', tier], cwd=VERIF, capture_output=True, text=True, env=SCRATCH_ENV)
       rules = sorted(set(l.split('rule=')[1].split(' ')[0] for l in p.stdout.splitlines() if l.startswith('FINDING ')))
       err = [l for l in p.stdout.splitlines() if l.startswith('ANALYSIS-ERROR')]
       out[pid] = (p.returncode, rules, err[:1])
